@@ -1,3 +1,4 @@
+import Gen.PX1
 import SweepG
 import Lemmas.Sweep
 /-! # C14 — generic-width conversions: exhaustive theorems for PxE2 (the width is an argument of the model)
@@ -5,7 +6,10 @@ import Lemmas.Sweep
 * `PxE2<N>::to_p32e2` and `to_f64` are exact for every N in 2..=14 and every N-bit pattern;
 * `PxE2<N>::from_p8e0` (all 256 sources) for every N in 2..=31 and `from_p16e1` (all 65536 sources) for every N in 2..=31
   return the source value rounded to an N-bit es=2 posit, left-aligned, zero and NaR preserved.
-Other conversions / PxE1 / wider sources: correspondence + oracle; open defects in known_findings.json. -/
+After the repairs of the second half of the build round (known_findings.json `fixed:`) also, as exhaustive sweeps (`… = true`
+statements over the widths and ALL patterns): PxE2 and PxE1 `to_p8e0`, `to_p16e1` for every N in 2..=16, PxE1 `to_p32e2`, `to_f64`
+for N in 2..=14, PxE1/PxE2 `from_p8e0` and `from_p16e1` for every N in 2..=32.
+Integer/float sources, N > 16 targets: correspondence + oracle; open defects in known_findings.json. -/
 open Gen Sweep SweepG
 namespace C14
 
@@ -28,5 +32,19 @@ theorem px2_from_p16 (n : Nat) (x : Int16) (hn : 2 ≤ n) (hn' : n < 32) :
   have := all1_imp (allRange_imp px2_from_p16_all n hn (by omega)) (bits16 x) (bits16_lt x)
   rw [p16_bits16] at this
   exact (isOk_iff _ _).mp this
+
+/-! sweeps added after the repairs (every width in the range, every pattern) -/
+theorem px2_to_p8_small : widths 2 15 (pxTo8 Spec.px2 crate.convert.PxE2.to_p8e0) = true := by native_decide
+theorem px2_to_p16_small : widths 2 15 (pxTo16 Spec.px2 crate.convert.PxE2.to_p16e1) = true := by native_decide
+theorem px2_into_p8_small : widths 2 15 (pxTo8 Spec.px2 crate.convert.P8E0.From_PxE2.from) = true := by native_decide
+theorem px2_into_p16_small : widths 2 15 (pxTo16 Spec.px2 crate.convert.P16E1.From_PxE2.from) = true := by native_decide
+theorem px1_to_p8_small : widths 2 15 (pxTo8 Spec.px1 crate.convert.PxE1.to_p8e0) = true := by native_decide
+theorem px1_to_p16_small : widths 2 15 (pxTo16 Spec.px1 crate.convert.PxE1.to_p16e1) = true := by native_decide
+theorem px1_to_p32_small : widths 2 13 (pxTo32 Spec.px1 crate.convert.PxE1.to_p32e2) = true := by native_decide
+theorem px1_to_f64_small : widths 2 13 (pxToF64 Spec.px1 crate.pxe1.convert.PxE1.to_f64) = true := by native_decide
+theorem px2_from_p8_n32 : widths 32 1 (pxFrom8 Spec.px2 crate.convert.PxE2.from_p8e0) = true := by native_decide
+theorem px2_from_p16_n32 : widths 32 1 (pxFrom16 Spec.px2 crate.convert.PxE2.from_p16e1) = true := by native_decide
+theorem px1_from_p8_all : widths 2 31 (pxFrom8 Spec.px1 crate.convert.PxE1.from_p8e0) = true := by native_decide
+theorem px1_from_p16_all : widths 2 31 (pxFrom16 Spec.px1 crate.convert.PxE1.from_p16e1) = true := by native_decide
 
 end C14
